@@ -736,18 +736,37 @@ static ares_bool_t ares_servers_remove_stale(ares_channel_t *channel,
 {
   ares_bool_t        stale_removed = ARES_FALSE;
   ares_slist_node_t *snode         = ares_slist_node_first(channel->servers);
+  /* Stale servers, already taken out of channel->servers.  Best effort: if it
+   * can't be allocated each stale server is destroyed as it is found. */
+  ares_llist_t      *stale         = ares_llist_create(NULL);
+  ares_llist_node_t *node;
 
+  /* First take every stale server out of the channel's server list, only then
+   * destroy them.  Destroying a server closes its connections, which re-sends
+   * the queries pending on them; none of the servers being removed may be
+   * chosen for that. */
   while (snode != NULL) {
-    ares_slist_node_t   *snext  = ares_slist_node_next(snode);
-    const ares_server_t *server = ares_slist_node_val(snode);
+    ares_slist_node_t *snext  = ares_slist_node_next(snode);
+    ares_server_t     *server = ares_slist_node_val(snode);
     if (!ares_server_in_newconfig(server, srvlist)) {
-      /* This will clean up all server state via the destruction callback and
-       * move any queries to new servers */
-      ares_slist_node_destroy(snode);
+      if (stale != NULL && ares_llist_insert_last(stale, server) != NULL) {
+        ares_slist_node_claim(snode);
+      } else {
+        /* This will clean up all server state via the destruction callback and
+         * move any queries to new servers */
+        ares_slist_node_destroy(snode);
+      }
       stale_removed = ARES_TRUE;
     }
     snode = snext;
   }
+
+  /* This will clean up all server state and move any queries to new servers */
+  while ((node = ares_llist_node_first(stale)) != NULL) {
+    ares_destroy_server(ares_llist_node_claim(node));
+  }
+  ares_llist_destroy(stale);
+
   return stale_removed;
 }
 
